@@ -227,8 +227,46 @@ def check_multi(c, r, kind, tag):
     c.case(key, dict(kind=tag, sessions=n, src=src.decode()[:600]) if key else None)
 
 
+def check_content_classes(c, r, kind, tag):
+    """one session, one statement per CLASS of inner frame a tunnel end point might be tempted to interpret: every ethertype class
+    (VLAN tags of each flavour with a tag body, IPv4/IPv6/ARP, bridging, ERSPAN) x destination address classes - deterministic,
+    so that no class depends on the luck of the random families"""
+    ss = Sess(kind, 0, r)
+    head = ['import ipv4;', 'import eth;', 'import vxlan;', 'import gre;', 'import erspan1;', 'import erspan2;']
+    body, inner, pis = [], [], []
+    for et in (0x8100, 0x88a8, 0x9100, 0x0800, 0x0806, 0x86dd, 0x6558, 0x88be, 0x88cc, 0x0000, 0xffff):
+        for dst in ('020000000002', 'ffffffffffff', '01005e000001', '0180c2000000', '0180c200000e'):
+            pay = bytes.fromhex(r.choice(['0064', '0fff', 'e001']) + r.choice(['0800', '8100', '86dd'])) + r.bytes(r.below(6)) if et in (0x8100, 0x88a8, 0x9100) else r.bytes(r.below(8))
+            fr = bytes.fromhex(dst) + bytes.fromhex('020000000001') + et.to_bytes(2, 'big') + pay
+            e = 'eth::frame("|020000000001|", "|%s|", ethertype: %d%s)' % (dst, et, ', "|%s|"' % pay.hex() if pay else '')
+            w, pi = ss.wrap(e, r, True)
+            body.append(w + ';'); inner.append(fr); pis.append(pi)
+    src = ('\n'.join(head + [ss.decl] + body) + '\n').encode()
+    impl, model = progdiff.run_both(c, src)
+    progdiff.compare(c, src, impl, model, 'tunnel-classes')
+    rep = dict(src=src.decode()[:6000])
+    if impl['outcome'][0] == 'success':
+        outer = [x[1] for x in progdiff.pcap_records(impl['file'] or b'')]
+        if len(outer) != len(inner):
+            c.violation('tunnel:count', '%d inner frames became %d outer packets' % (len(inner), len(outer)), rep)
+        else:
+            for i, (o, inn) in enumerate(zip(outer, inner)):
+                a = c.model.ask('oracle decap %s %s' % (kind, sh_hex(o if ss.raw else o[14:])))
+                if not a.startswith('ok'):
+                    c.violation('tunnel:%s:undecodable' % kind, 'Spec decoder rejects outer packet %d' % i, rep); continue
+                if core.unhex(kv(a)['inner']) != inn:
+                    c.violation('tunnel:payload', 'payload of outer packet %d differs from the inner frame (ethertype %#06x, destination %s)' % (i, int.from_bytes(inn[12:14], 'big'), inn[:6].hex()), rep)
+            c.traces_validated += 1
+    elif impl['outcome'][0] == 'panic':
+        c.violation('tunnel:panic', 'implementation panicked: %s' % (impl['outcome'][1],), rep)
+    c.count('content-classes:' + kind)
+    c.case(('classes', kind, ss.raw), dict(kind=tag, tunnel=kind, frames=len(inner)))
+
+
 def campaign(c):
     c.rule = RULE
+    for j, k in enumerate(KINDS * (1 if c.quick else 6)):
+        check_content_classes(c, c.rng.fork('classes%d' % j), k, 'content-classes')
     for j in range(16 if c.quick else 240):
         check_multi(c, c.rng.fork('multi%d' % j), KINDS[j % 4], 'several-sessions')
     import itertools
